@@ -212,3 +212,28 @@ def hexs(b):
 
 def coq_bytes(b):
     return "[" + ";".join(str(x) for x in b) + "]"
+
+
+def _walk_has_odd_refreq(b, start):
+    o = start
+    while o + 4 <= len(b):
+        tid = (b[o] << 8) | b[o + 1]
+        l = (b[o + 2] << 8) | b[o + 3]
+        if l < 4 or o + (l + 3) // 4 * 4 > len(b):
+            return False
+        if tid == T_REFREQ and l - 4 >= 2 and (l - 4) % 4 != 0:
+            return True
+        o += (l + 3) // 4 * 4
+    return False
+
+
+def in_c24_class(data, plaintexts=()):
+    """the confirmed C24 defect class (DESIGN.md section 4 row 4): an NTPv5 datagram in which the decoder
+    meets a reference-id request whose payload length is >= 2 and not a multiple of 4 (also inside a
+    decrypted plaintext).  The repaired decoder (branch fix-c24) rejects it, the unrepaired one accepts it;
+    C23 and C25 do not compare the model on this class so that they hold on both trees (C24 does)."""
+    if len(data) < 48 or ((data[0] >> 3) & 7) != 5:
+        return False
+    if _walk_has_odd_refreq(data, 48):
+        return True
+    return any(_walk_has_odd_refreq(list(p), 0) for p in plaintexts)
